@@ -197,6 +197,34 @@ class _Subst(ast.NodeTransformer):
         return ast.Lambda(args=node.args, body=body)
 
 
+def _replace_node(root: ast.expr, target: ast.AST, new: ast.expr) -> ast.expr:
+    """Copy of root with the node `target` (by identity) replaced by `new`."""
+
+    class R(ast.NodeTransformer):
+        def generic_visit(self, node):
+            for field, old in ast.iter_fields(node):
+                if isinstance(old, list):
+                    for i, x in enumerate(old):
+                        if x is target:
+                            old[i] = new
+                        elif isinstance(x, ast.AST):
+                            self.generic_visit(x)
+                elif old is target:
+                    setattr(node, field, new)
+                elif isinstance(old, ast.AST):
+                    self.generic_visit(old)
+            return node
+
+    import copy as _copy
+
+    memo = {id(target): target}
+    root2 = _copy.deepcopy(root, memo)  # target keeps its identity inside the copy
+    if root2 is target:
+        return new
+    R().generic_visit(root2)
+    return root2
+
+
 def subst(e: ast.expr, p: Path) -> ast.expr:
     if e is None:
         return None
@@ -735,6 +763,27 @@ class Enumerator:
             callee = self._inlinable(e, fi, p)
             if callee is not None:
                 return self._inline(e, callee, p, fi)
+        # helper calls nested inside the expression (f(g(x)) with g inlinable): replace them by what they return
+        nested = [n for n in ast.walk(e) if isinstance(n, ast.Call) and n is not e]
+        if nested and not getattr(self, "_in_nested", False):
+            for n in reversed(nested):  # innermost last in walk order -> try inner ones first
+                callee = self._inlinable(n, fi, p)
+                if callee is None or callee.is_property:
+                    continue
+                self._in_nested = True
+                try:
+                    res = self._inline(n, callee, p, fi)
+                finally:
+                    self._in_nested = False
+                out = []
+                for q, v in res:
+                    if q.exit is not None:
+                        out.append((q, ast.Constant(value=None)))
+                        continue
+                    e2 = _replace_node(e, n, v)
+                    # the replacement is already substituted; protect it from a second substitution by binding nothing new
+                    out.extend(self._value(e2, q, fi))
+                return out
         self._record_calls(e, p, fi)
         return [(p, subst(e, p))]
 
